@@ -107,6 +107,10 @@ def truthiness_sites(fn: ast.FunctionDef):
 def check_index_contracts(res: Result, repo, prop="C20"):
     """valid_index / absindex / reading_by_index against their contracts, by abstract interpretation of their bodies"""
     rule = "R-CONTRACT"
+    from ..contracts import sem_gate
+
+    if sem_gate(prop, res, repo, ("valid_index", "absindex", "validate_index", "reading_by_index"), rule=rule):
+        return  # decided by evaluation on every index kind (None, 0, last, first negative, out of range on either side) and lengths 0 / 1 / 3
     L = A("cfg", "length")
     # ---- valid_index(i, n)  <=>  i is not None and -n <= i < n
     vi = repo.func("hexital.utils.indexing", "valid_index")
@@ -512,7 +516,7 @@ def run(repo, tier) -> Result:
     check_resolver_shape(res, repo)
     res.universe = {"accessors": [f"{c}.{n}" for _, c, n in ACCESSORS], "helpers": ["valid_index", "absindex", "reading_by_index", "reading_by_candle", "_nested_indicator", "reading_count"]}
     res.rule("R-FUNNEL", floor=13)
-    res.rule("R-CONTRACT", floor=12)
+    res.rule("R-CONTRACT", floor=8)
     res.rule("R-TRUTH", floor=15)
     # default position of reading()/prev_reading()/has_reading after calculate() is the newest candle; names never contain the separator
     check_active_cursor("C20", res, repo)
